@@ -445,6 +445,12 @@ func (r *Runner) classify(res []HarnessResult) {
 		case "unsupported":
 			r.inconsistent(fmt.Sprintf("harness %s uses a construct outside the encoder: %s", hr.Name, trunc(hr.Detail, 3000)))
 		default:
+			if kfID != "" {
+				// the un-carved twin of a known finding could not be decided within the budget: it only serves to
+				// print the KNOWN-FINDING line, the carved main harness carries the claim
+				r.Extra["undecided_known_finding_twins"] = append(asStrings(r.Extra["undecided_known_finding_twins"]), hr.Name+": "+hr.Detail)
+				continue
+			}
 			r.inconsistent(fmt.Sprintf("harness %s inconclusive: %s", hr.Name, hr.Detail))
 		}
 	}
